@@ -532,7 +532,7 @@ fn explore_all(prop: &str, thorough: bool, rng: &mut Rng, out: &mut Out) {
     }
     // large and odd-sized items: no tree, specific scripts (happy path, failure report then retry,
     // a wrong reply at a few positions)
-    let sizes: Vec<usize> = if thorough { vec![336, 4096, 65536, 65552] } else { vec![336, 4096] };
+    let sizes: Vec<usize> = if thorough { vec![336, 4096, 4112, 4816, 65536, 65552] } else { vec![336, 4096, 4112] };
     for sz in sizes {
         let a = 3u16;
         let item = format!("g:{}:{}", sz, rng.below(100));
